@@ -38,8 +38,8 @@ func runC04(c *Ctx) {
 	R.Count("bounds_discharged", nOK)
 	R.Floor("C04.R1", "bounds obligations in connection scope", nOb, 30)
 	c.slotAssertions("C04.R1")
-	c.c04Allocations("C04.R2", fns)
-	c.c04Loops("C04.R3", fns)
+	c.c04Allocations("C04.R2", fns, 8)
+	c.c04Loops("C04.R3", fns, 12)
 	c.c04Termination("C04.R4")
 	c.c04NoFabricatedData("C04.R5")
 	c.nullSentinels("C04.R5")
@@ -102,7 +102,7 @@ func (c *Ctx) boundedSize(l *core.Lin, at ssa.Instruction, v ssa.Value) (bool, s
 	return false, ""
 }
 
-func (c *Ctx) c04Allocations(rule string, fns []*ssa.Function) {
+func (c *Ctx) c04Allocations(rule string, fns []*ssa.Function, floor int) {
 	R := c.R
 	sum := c.summaries(rule)
 	mods := c.modSets()
@@ -210,7 +210,7 @@ func (c *Ctx) c04Allocations(rule string, fns []*ssa.Function) {
 			R.Check(ok, rule, fkey(caller)+":precondition:"+fkey(lf.fn)+"("+lf.fn.Params[lf.idx].Name()+"<=limit)", c.at(site), "call site bounds the size it hands to "+fkey(lf.fn)+" by the message limit", "E-LIN: "+l.Last, "cannot prove "+describe(arg)+" <= MaxMessageSize at this call of "+fname(lf.fn)+": more than the limit can be allocated / buffered for one message")
 		}
 	}
-	R.Floor(rule, "data-dependent allocation sizes", n, 8)
+	R.Floor(rule, "data-dependent allocation sizes", n, floor)
 }
 
 // inputReaders: functions of S that (transitively) read from the connection or consume the current message.
@@ -263,7 +263,7 @@ func definedOutside(v ssa.Value, l *core.Loop) bool {
 	return false
 }
 
-func (c *Ctx) c04Loops(rule string, fns []*ssa.Function) {
+func (c *Ctx) c04Loops(rule string, fns []*ssa.Function, floor int) {
 	R := c.R
 	readers := c.inputReaders()
 	sum := c.summaries(rule)
@@ -369,7 +369,7 @@ func (c *Ctx) c04Loops(rule string, fns []*ssa.Function) {
 			R.Check(kind != "", rule, key, c.at(h.Instrs[len(h.Instrs)-1]), "every loop of the connection code terminates or makes progress on the input (counting / range loop, bounded growth, or one read per iteration whose failure leaves the loop)", kind+": "+why, "the loop is neither a counting / range loop with an invariant bound nor driven by a read whose failure leaves it: a client can wedge the connection goroutine")
 		}
 	}
-	R.Floor(rule, "loops in connection scope", n, 12)
+	R.Floor(rule, "loops analysed", n, floor)
 }
 
 func (c *Ctx) c04Termination(rule string) {
